@@ -326,6 +326,104 @@ func phaseServer(n, iters int, stats map[string]int) {
 	stats["server_requests"] = n * iters
 }
 
+// ---- phase 2b: what a resource KEEPS.  (1) Entities decoded from request bodies and stored by the resource (map keys and
+// values) must still read what each request sent after many later requests were served.  (2) One canned per-key response
+// object (status left at 0: "use the default") shared by all keys and all concurrent batch requests must stay unmodified.
+type noteT struct{ M map[string]string }
+
+func (e *noteT) NewInstance() *noteT { return new(noteT) }
+func (e *noteT) MarshalRestLi(w restlicodec.Writer) error {
+	return w.WriteMap(func(kw func(string) restlicodec.Writer) error {
+		return kw("m").WriteMap(func(kw func(string) restlicodec.Writer) error {
+			for k, v := range e.M {
+				kw(k).WriteString(v)
+			}
+			return nil
+		})
+	})
+}
+func (e *noteT) UnmarshalRestLi(r restlicodec.Reader) error {
+	e.M = map[string]string{}
+	return r.ReadMap(func(r restlicodec.Reader, k string) error {
+		if k != "m" {
+			return r.Skip()
+		}
+		return r.ReadMap(func(r restlicodec.Reader, k string) error {
+			v, err := r.ReadString()
+			e.M[k] = v // the key and the value as the reader handed them over
+			return err
+		})
+	})
+}
+
+type bqpT = *restli.SliceBatchQueryParams[int64]
+
+func phaseRetain(n, iters int, stats map[string]int) {
+	if iters > 200 {
+		iters = 200
+	}
+	s := restli.NewServer()
+	segs := []restli.ResourcePathSegment{restli.NewResourcePathSegment("notes", true)}
+	var mu sync.Mutex
+	stored := map[string]*noteT{}
+	restli.RegisterUpdate(s, segs, nil, func(ctx *restli.RequestContext, rp *rpT, v *noteT, qp *qpT) error {
+		mu.Lock()
+		stored[rp.keys[0]] = v // kept beyond the request
+		mu.Unlock()
+		return nil
+	})
+	canned := &common.BatchEntityUpdateResponse{} // Status 0: the default
+	restli.RegisterBatchDelete(s, segs, func(ctx *restli.RequestContext, rp *rpT, keys []int64, qp bqpT) (*common.BatchResponse[int64, *common.BatchEntityUpdateResponse], error) {
+		res := &common.BatchResponse[int64, *common.BatchEntityUpdateResponse]{Results: map[int64]*common.BatchEntityUpdateResponse{}}
+		for _, k := range keys {
+			res.Results[k] = canned
+		}
+		return res, nil
+	})
+	h := s.Handler()
+	var wg sync.WaitGroup
+	for g := 0; g < n; g++ {
+		wg.Add(1)
+		go func(g int) {
+			defer wg.Done()
+			for i := 0; i < iters; i++ {
+				key := fmt.Sprintf("n-%d-%d", g, i)
+				body := fmt.Sprintf(`{"m":{"owner-%s":"o-%s","topic-%s":"t-%s"}}`, key, key, key, key)
+				req := httptest.NewRequest("PUT", "/notes/"+key, strings.NewReader(body))
+				req.Header.Set("X-RestLi-Protocol-Version", "2.0.0")
+				req.Header.Set("Content-Type", "application/json")
+				w := httptest.NewRecorder()
+				h.ServeHTTP(w, req)
+				if w.Code != 204 {
+					violation("C17/retain/update-failed", fmt.Sprintf("PUT /notes/%s answered %d: %s", key, w.Code, w.Body.String()), nil)
+				}
+				req = httptest.NewRequest("DELETE", fmt.Sprintf("/notes?ids=List(%d,%d)", g, i+1000), nil)
+				req.Header.Set("X-RestLi-Protocol-Version", "2.0.0")
+				req.Header.Set("X-RestLi-Method", "batch_delete")
+				w = httptest.NewRecorder()
+				h.ServeHTTP(w, req)
+				if w.Code != 200 || !strings.Contains(w.Body.String(), `"status":204`) {
+					violation("C17/retain/batch-delete", fmt.Sprintf("batch_delete answered %d: %s", w.Code, w.Body.String()), nil)
+				}
+			}
+		}(g)
+	}
+	wg.Wait()
+	for key, v := range stored {
+		want := map[string]string{"owner-" + key: "o-" + key, "topic-" + key: "t-" + key}
+		if fmt.Sprint(v.M) != fmt.Sprint(want) {
+			violation("C17/retain/stored-entity-changed", fmt.Sprintf("the entity the resource stored for %s now reads %v, the request said %v", key, v.M, want), nil)
+		}
+	}
+	if len(stored) != n*iters {
+		violation("C17/retain/lost", fmt.Sprintf("%d entities stored, %d requests", len(stored), n*iters), nil)
+	}
+	if canned.Status != 0 {
+		violation("C17/retain/shared-response-object-modified", fmt.Sprintf("the canned per-key response shared by all requests now has status %d", canned.Status), nil)
+	}
+	stats["retained_entities"] = len(stored)
+}
+
 // ---- phase 3: one client
 type echoRT struct{}
 
@@ -395,6 +493,7 @@ func main() {
 	phaseCodec(*n, *iters, stats)
 	phaseD2(*n, *iters, stats)
 	phaseServer(*n, *iters, stats)
+	phaseRetain(*n, *iters, stats)
 	phaseClient(*n, *iters, stats)
 	phaseRegistry(*n, *iters, stats)
 	b, _ := json.Marshal(map[string]any{"kind": "stats", "stats": stats, "violation_counts": vcount})
